@@ -169,6 +169,12 @@ def gen_params(rng, nd, transposition=False, small=False):
         p['engine'] = rng.choice(['python', 'numba'])
     if transposition:
         p['preprocess'] = False
+        # without preprocessing noise_size only enters the reported uncertainty: one number per axis, permuted with the axes
+        r = rng.random()
+        if r < 0.15:
+            p['noise_size'] = rng.choice([0.5, 1.5, 2])
+        elif r < 0.4:
+            p['noise_size'] = tuple(rng.choice([0.5, 1, 1.5, 2, 3]) for _ in range(nd))
     else:
         p['preprocess'] = rng.random() < 0.55
         if p['preprocess']:
@@ -752,6 +758,13 @@ def gen_transposition(rng, tier, small=False):
         ((rng.randint(10, 18), rng.randint(10, 18)) if small else (rng.randint(14, 60), rng.randint(14, 60)))
     kind = rng.choice(['blobs', 'blobs', 'mixed', 'plateau', 'ladder', 'noise', 'levels', 'pair'])
     img = gen_content(rng, shape, kind, dtype)
+    if dtype == 'int32' and rng.random() < 0.6:
+        # signed frame with a negative, uneven background (dark-frame subtracted camera data): locate clips the image it
+        # searches but measures the background noise on the frame as given, so the reported uncertainty is not zero
+        lv = rng.choice([2, 5, 30])
+        neg = np.array([rng.randint(0, lv) for _ in range(int(np.prod(shape)))], dtype=img.dtype).reshape(shape)
+        img = np.where(img == 0, -neg, img).astype(img.dtype)
+        kind += '+negative background'
     perm = (1, 0) if nd == 2 else rng.choice([q for q in itertools.permutations(range(3)) if q != (0, 1, 2)])
     post = {}
     if rng.random() < 0.3:
